@@ -16,6 +16,7 @@ import ClarabelProofs.Props.C05Full
 import ClarabelProofs.Props.C05Cones
 import ClarabelProofs.Props.C05Equiv
 import ClarabelProofs.Props.C05Idem
+import ClarabelProofs.Props.C05NS
 
 namespace Clarabel.C05
 open Clarabel Clarabel.Step Clarabel.Lemmas Matrix
